@@ -43,6 +43,8 @@ type DADouble struct {
 	Accepted []F
 	// AutoAdvance: current height follows submissions (cur = height of last accepted blob).
 	Submits int
+	// LastOffered is the number of blobs of the most recent Submit call.
+	LastOffered int
 }
 
 type daBlob struct {
@@ -118,6 +120,7 @@ func (d *DADouble) SubmitWithOptions(ctx context.Context, blobs []coreda.Blob, g
 	}
 	d.mu.Lock()
 	d.Submits++
+	d.LastOffered = len(blobs)
 	out := d.Default
 	if len(d.SubmitScript) > 0 {
 		out = d.SubmitScript[0]
